@@ -144,6 +144,33 @@ def run_program(spec, SG=None, entropy_log=None):
                                 h.add("exc", np.frombuffer(type(ex).__name__.encode(), dtype=np.uint8))
                         H.add(f"{n}:dag:{rep}", np.frombuffer(h.h.digest(), dtype=np.uint8))
                         det.append((n, rep, h.h.hexdigest()))
+                elif k == "gather":
+                    # bootstrap-style gather with repeated indices, then backward: rows never drawn must get exactly zero gradient
+                    for rep in range(s["reps"]):
+                        h = Hasher()
+                        x = sg.Tensor(np.array(s["vals"], dtype=np.float32).reshape(s["shape"]), requires_grad=True)
+                        y = x[list(s["idx"])]
+                        (y * y).sum().backward() if s["reduce"] else y.backward(sg.Tensor(np.array(s["g"], dtype=np.float32).reshape(y.data.shape)))
+                        h.add("fw", y.data)
+                        h.add("gx", x.grad.data)
+                        H.add(f"{n}:gather:{rep}:gx", x.grad.data)
+                        det.append((n, rep, h.h.hexdigest()))
+                        junk = [np.full(s["shape"], float(j) - 3.5, dtype=np.float32) for j in range(8)]      # unrelated allocations in between
+                        del junk
+                elif k == "leafroot":
+                    # backward() with the DEFAULT seed on a scalar leaf, then an accumulating sweep into it
+                    for rep in range(s["reps"]):
+                        h = Hasher()
+                        t = sg.Tensor(np.array(s["v"], dtype=np.float32), requires_grad=True)
+                        t.backward()
+                        (t * float(s["c"])).backward()
+                        u = sg.Tensor(np.array([s["v"], 1.0], dtype=np.float32), requires_grad=True)
+                        u.sum().backward()
+                        h.add("gt", t.grad.data)
+                        h.add("gu", u.grad.data)
+                        H.add(f"{n}:leafroot:{rep}:gt", t.grad.data)
+                        H.add(f"{n}:leafroot:{rep}:gu", u.grad.data)
+                        det.append((n, rep, h.h.hexdigest()))
                 elif k == "sumorder":
                     # deterministic part: fixed data, a node with many contributions of spread magnitude, float32
                     for rep in range(s["reps"]):
@@ -198,7 +225,7 @@ class ReproSim(Sim):
     MAX_EVENTS = 1
     RUN_TIMEOUT = 300
     SELFTEST_RUNS = 6
-    PROBES = ["rand_family", "init_family", "layer_constructor", "dropout", "shuffled_split", "training_steps", "sumorder_float32", "generated_dag_program_float32", "fresh_process_hashseed_0",
+    PROBES = ["rand_family", "init_family", "layer_constructor", "dropout", "shuffled_split", "training_steps", "sumorder_float32", "generated_dag_program_float32", "gather_repeated_indices", "default_seed_on_scalar_leaf", "special_seed", "fresh_process_hashseed_0",
               "fresh_process_hashseed_1", "fresh_process_hashseed_random", "heap_displaced", "in_process_twice", "repetitions_without_reseed"]
     RULE = ("one run = one generated program over the random-consuming APIs + training steps + float32 multi-contribution graphs, executed over the "
             "matrix (twice in-process, 3 fresh interpreters with different PYTHONHASHSEED / heap layout, r repetitions of the deterministic part); "
@@ -222,7 +249,7 @@ class ReproSim(Sim):
                 return [rng.choice([260, 300, 512])] + [rng.choice([257, 300])] + [1] * (rank - 2) if rank >= 2 else [rng.choice([70000, 100000])]
             return [rng.randint(lo, hi) for _ in range(rank)]
         for _ in range(rng.randint(3, 9)):
-            k = rng.choice(["rand", "rand", "init", "layer", "dropout", "split", "train", "sumorder", "sumorder", "dag", "dag"])
+            k = rng.choice(["rand", "rand", "init", "layer", "dropout", "split", "train", "sumorder", "sumorder", "dag", "dag", "gather", "leafroot"])
             if k == "rand":
                 fn = rng.choice(["rand", "randn", "normal", "randint"])
                 s = {"k": "rand", "fn": fn, "shape": dims(1, 4, rng.randint(1, 3))}
@@ -240,6 +267,16 @@ class ReproSim(Sim):
                 s = {"k": "dropout", "p": rng.choice([0.1, 0.5, 0.9]), "shape": dims(2, 6, 2)}
             elif k == "split":
                 s = {"k": "split", "n": rng.choice([rng.randint(4, 20), 5000]), "test": rng.choice([0.2, 0.5]), "val": rng.choice([None, 0.25])}
+            elif k == "gather":
+                rows = rng.randint(3, 8)
+                shape = [rows] + ([rng.randint(1, 3)] if rng.random() < 0.6 else [])
+                m = rows if rng.random() < 0.6 else rng.randint(1, 2 * rows)         # often exactly as many draws as rows (a bootstrap resample)
+                idx = [rng.randrange(rows) for _ in range(m)]
+                nel = int(np.prod(shape))
+                s = {"k": "gather", "shape": shape, "vals": [round(rng.uniform(-3, 3), 3) for _ in range(nel)], "idx": idx, "reduce": rng.random() < 0.5,
+                     "g": [round(rng.uniform(-2, 2), 3) for _ in range(m * (shape[1] if len(shape) > 1 else 1))], "reps": rng.randint(2, 3)}
+            elif k == "leafroot":
+                s = {"k": "leafroot", "v": round(rng.uniform(-3, 3), 3), "c": rng.choice([3.0, -2.0, 0.5]), "reps": rng.randint(2, 3)}
             elif k == "dag":
                 from sims.progsim import ProgSim
                 from simkit.runner import run_generated
@@ -259,7 +296,8 @@ class ReproSim(Sim):
                      "order": rng.sample(range(m), m), "reduce": rng.random() < 0.5, "g": [round(rng.uniform(-2, 2), 3) for _ in range(n)], "reps": rng.randint(1, 3),
                      "via": rng.choice(["add", "stack", "concat"]), "leaf_direct": rng.random() < 0.3}
             steps.append(s)
-        return {"k": "program", "seed": rng.randrange(2 ** 31), "steps": steps, "hashseeds": ["0", "1", str(rng.randrange(1, 2 ** 31))], "junk": rng.choice([0, 2000, 20000])}
+        seed = rng.choice([0, 1, 2 ** 32 - 1, 42]) if rng.random() < 0.15 else rng.randrange(2 ** 31)      # all seeds, also the unusual ones
+        return {"k": "program", "seed": seed, "steps": steps, "hashseeds": ["0", "1", str(rng.randrange(1, 2 ** 31))], "junk": rng.choice([0, 2000, 20000])}
 
     def simplify(self, events):
         if len(events) != 1:
@@ -285,7 +323,10 @@ class ReproSim(Sim):
         st.sig = kinds + [str(ev["junk"])]
         for s in ev["steps"]:
             st.probes[{"rand": "rand_family", "init": "init_family", "layer": "layer_constructor", "dropout": "dropout", "split": "shuffled_split",
-                       "train": "training_steps", "sumorder": "sumorder_float32", "dag": "generated_dag_program_float32"}[s["k"]]] += 1
+                       "train": "training_steps", "sumorder": "sumorder_float32", "dag": "generated_dag_program_float32", "gather": "gather_repeated_indices",
+                       "leafroot": "default_seed_on_scalar_leaf"}[s["k"]]] += 1
+        if ev["seed"] in (0, 1, 2 ** 32 - 1):
+            st.probes["special_seed"] += 1
         used = []
         try:
             d1, det1 = run_program(spec, st.SG, used)
